@@ -4,6 +4,7 @@ package main
 // symbolic execution over the loop-cut CFG with state merging at joins.
 
 import (
+	"os"
 	"fmt"
 	"go/ast"
 	"go/constant"
@@ -1318,6 +1319,24 @@ func (u *Unit) instr(f *Frame, st *State, ins ssa.Instruction) {
 		}
 		u.checkGuard(f, st, l, true, x.Pos())
 		u.storeLoc(st, l, v.T)
+		// `store <assignment text> requires ...`: an assertion right after that assignment
+		if u.con != nil && len(u.con.StoreSites) > 0 && f.depth == 0 && f.fn == u.fn && !f.pure {
+			txt := u.ctx.assignTextAt(x.Pos())
+			if os.Getenv("GOVC_DEBUG_STORE") != "" {
+				fmt.Fprintf(os.Stderr, "store text %q\n", txt)
+			}
+			for _, ss := range u.con.StoreSites {
+				if ss.Text != txt {
+					continue
+				}
+				f.envPos = x.Pos() + 1
+				env := u.loopEnv(f, st, f.fn, -1)
+				f.envPos = token.NoPos
+				env.old = f.entry
+				env.oldVars = f.paramV
+				u.oblige(f, st, "store", txt+":"+ss.Clause.label(), env.boolExpr(ss.Clause.Expr), x.Pos())
+			}
+		}
 	case *ssa.UnOp:
 		u.unop(f, st, x)
 	case *ssa.BinOp:
